@@ -263,7 +263,7 @@ class StmtMixin:
         flat = []
         for cond, stmts in ((t, st.body), (z3.Not(t), st.orelse)):
             start = base.snapshot()
-            start.pc.append(cond)
+            self.push_cond(start, cond)
             if not self.smt.feasible(start.pc):
                 continue
 
@@ -302,7 +302,7 @@ class StmtMixin:
         if rets:
             rg = z3.simplify(disj([o.guard for o in rets]))
             ng = z3.Not(rg)
-            base.pc.append(ng)
+            self.push_cond(base, ng)
             fr.pending.append((rg, rv, len(base.effects), key))
         return True
 
